@@ -360,6 +360,56 @@ let ctx_call pre_ fn a =
         | _ -> ())
    | _ -> ())
 
+(* Op constructors build the op from the context they are given, whatever handle they are called on:
+   the write carries the whole read context (C06: "a write made with the context of a read replaces
+   everything that read returned"), an add carries the derived dot (C07/C04), a remove exactly the
+   context that was read (C04/C05: "a remove deletes only the adds its author had read" - and all of them) *)
+let opctor_call pre_ fn a =
+  let vleq_ a b = List.for_all (fun (x, n) -> int_of_n n <= int_of_n (vget b x)) (vc_to_list a) in
+  (match pre_, fn, a with
+   | "mvreg", "write", [v; ctx; op] ->
+       (match mvop_sx op with
+        | MVPut (c, v') ->
+            let rc = vc_sx (field "clock" ctx) in
+            count "C06";
+            if not (vleq_ rc c) then
+              report "C06" (Printf.sprintf "write made with the read context %s carries clock %s: a value that read returned is not replaced" (show_vc rc) (show_vc c));
+            if v' <> n_sx v then report "C06" "write carries another value than the one written")
+   | "orswot", ("add" | "add_all"), [m; ctx; op] ->
+       (match oop_sx op with
+        | OAdd (d, ms) ->
+            let cd = dot_sx (field "dot" ctx) in
+            let want = (if fn = "add" then [n_sx m] else List.map n_sx (seq m)) in
+            List.iter (fun p ->
+              count p;
+              if not (d.dactor = cd.dactor && d.dcounter = cd.dcounter) then
+                report p (Printf.sprintf "add built from a context with dot %s carries dot %s" (show_dot cd) (show_dot d));
+              if List.sort compare (List.map int_of_n ms) <> List.sort compare (List.map int_of_n want) then
+                report p "add carries other members than the ones given") ["C04"; "C07"]
+        | ORm _ -> report "C04" "add returns a remove op")
+   | "orswot", ("rm" | "rm_all"), [m; ctx; op] ->
+       (match oop_sx op with
+        | ORm (c, ms) ->
+            let rc = vc_sx (field "clock" ctx) in
+            let want = (if fn = "rm" then [n_sx m] else List.map n_sx (seq m)) in
+            count "C04";
+            if not (vc_eqb rc c) then
+              report "C04" (Printf.sprintf "remove built from the read context %s carries context %s" (show_vc rc) (show_vc c));
+            if List.sort compare (List.map int_of_n ms) <> List.sort compare (List.map int_of_n want) then
+              report "C04" "remove names other members than the ones given"
+        | OAdd _ -> report "C04" "rm returns an add op")
+   | _, "rm", [k; ctx; op] when is_map pre_ ->
+       (match (try variant op with Bad _ -> "") with
+        | "Rm" ->
+            let rc = vc_sx (field "clock" ctx) and c = vc_sx (field "clock" op) in
+            let ks = List.map n_sx (seq (field "keyset" op)) in
+            count "C05";
+            if not (vc_eqb rc c) then
+              report "C05" (Printf.sprintf "key remove built from the read context %s carries context %s" (show_vc rc) (show_vc c));
+            if List.map int_of_n ks <> [int_of_n (n_sx k)] then report "C05" "key remove names other keys than the one given"
+        | _ -> report "C05" "Map::rm does not return a remove op")
+   | _ -> ())
+
 (* C11: an increment / decrement of n steps raises the actor's running total by exactly n
    ("no increment is lost or counted twice") *)
 let c11_call pre_ fn a =
@@ -396,6 +446,7 @@ let on_call (case : string) (cmd : string) (f : string) (a : sx list) =
      | "serde" -> if not !tainted then serde_call a
      | _ -> ());
     if not !tainted then (try c11_call pre_ fn a with Bad _ -> ());
+    if not !tainted then (try opctor_call pre_ fn a with Bad _ -> ());
     if not !tainted && discipline_ok () then begin generic_call pre_ fn a; ctx_call pre_ fn a end
   with Bad m -> report "DRIVER" ("monitor error: " ^ m)
 
